@@ -697,7 +697,16 @@ func genE2ECase(r *rand.Rand, family string) *eCase {
 		// bursts of failures against a small intensity inside a long period
 		c.Strategy = []int{0, 2}[r.Intn(2)]
 		c.Intensity, c.Period = 1+r.Intn(3), 60
-		for i := 0; i < c.Intensity+2; i++ {
+		limit := c.Intensity
+		switch r.Intn(3) {
+		case 0:
+			// only the intensity is configured: the period is the default (5 s), the configured intensity must stay
+			c.Period = 0
+		case 1:
+			// only the period is configured: the intensity is the default (5), the configured period must stay
+			c.Intensity, c.Period, limit = 0, 60, 5
+		}
+		for i := 0; i < limit+2; i++ {
 			c.Steps = append(c.Steps, eStep{K: "kill", Names: []int{pick()}}, eStep{K: "wait"})
 		}
 	case "c10":
